@@ -374,6 +374,7 @@ class Interp:
             raise Unsupported(f'loop #{ordn} of {self.cur_func} has symbolic length and no invariant', node.lineno)
         ctx = self.ctx
         tag = f'{self.cur_func}.loop{ordn}'
+        self.inv_mode = 'prove'
         for label, f in spec.invariant(self, env, 0):
             ctx.oblige(f'{tag}.init.{label}', f, kind='inv-init', line=node.lineno)
         n = it.length
@@ -383,8 +384,10 @@ class Interp:
             ctx.assume(z3.And(k >= 0, to_z3(k < n)))
             for name, maker in spec.carried.items():
                 env.set(name, maker(self, env, k))
+            self.inv_mode = 'assume'
             for label, f in spec.invariant(self, env, k):
                 ctx.assume(f)
+            self.inv_mode = 'prove'
             self.assign(node.target, it.item(k), env)
             try:
                 self.exec_block(node.body, env)
@@ -401,8 +404,10 @@ class Interp:
             raise PathDone()
         for name, maker in spec.carried.items():
             env.set(name, maker(self, env, n))
+        self.inv_mode = 'assume'
         for label, f in spec.invariant(self, env, n):
             ctx.assume(f)
+        self.inv_mode = 'prove'
         if node.orelse:
             self.exec_block(node.orelse, env)
 
